@@ -1,5 +1,5 @@
 """C04 — set-level coupling constraints encode the documented aggregate limits."""
-import json
+import json, os, re
 from fractions import Fraction
 from .. import common as C, gen, build, gen_sets as G
 from ..check import Prop, Op
@@ -45,6 +45,19 @@ def impl_verdict(cons, S):
   return worst is None, worst
 
 
+def dup_affected(t):
+  """some sub-balanced set has two rows with the same qualified id under it."""
+  return any(s['k'] == 'node' and s.get('sub') and G.has_duplicate_ids(s) for _, s in G.sets_of(t))
+
+
+def documented_row_sets(t):
+  """rows (relative to the set) whose qualified id ends with each label, and the rows matched by none."""
+  ids = G.fqids(t)
+  labelled = [[k for k, q in enumerate(ids) if q.endswith(l)] for l in t.get('labels', [])]
+  rest = [k for k, q in enumerate(ids) if not any(q.endswith(l) for l in t.get('labels', []))]
+  return labelled, rest
+
+
 def set_class(t):
   if t['k'] == 'mf':
     return 'TwoRatioMFDeviceSet' if t.get('ratios') else 'MFDeviceSet'
@@ -57,7 +70,8 @@ class C04(Prop):
   theorems = ['DK.C04.sbounds_sat_iff', 'DK.C04.sbounds_eq_of_sat', 'DK.C04.sbounds_kinds', 'DK.C04.label_sat_iff',
               'DK.C04.balance_sat_iff', 'DK.C04.holds_sign', 'DK.C04.labelSum_rows', 'DK.C04.ownCons_sat_iff',
               'DK.C04.ratio_sat_iff', 'DK.C04.ratio_eq', 'DK.C04.mf_cons_sat_iff', 'DK.C04.leaf_cons_sat_iff',
-              'DK.C04.tree_feasible_iff', 'DK.C04.block_spec_iff', 'DK.C04.tree_feasible_iff_shipped']
+              'DK.C04.tree_feasible_iff', 'DK.C04.block_spec_iff', 'DK.C04.tree_feasible_iff_shipped',
+              'DK.C04.codeRows_eq_of_nodup', 'DK.C04.duplicate_id_counterexample']
   rule = ('random trees (depth 1-3, fan-out 1-4, children with different row counts, adaptors with 1-3 conduits over devices with '
           'cumulative bounds / user constraints, two-ratio sets) x horizon n (1..6 quick, ..10 thorough) x aggregate bounds None / '
           'inequality / equality / per-slot mixed x sub-balanced sets with 1-3 labels (incl. overlapping and matching nothing), eq/ineq, '
@@ -65,27 +79,34 @@ class C04(Prop):
           'moves of it, an in-box flow, an arbitrary matrix; non-trivial: some set has aggregate bounds, labels or a ratio AND the probes '
           'fall on both sides of the documented limits')
   sizes = {'quick': 220, 'thorough': 2500}
-  assumptions = ['labels are matched as suffixes of the dot-joined qualified id; labels with regular-expression metacharacters and '
-                 'duplicate qualified ids are outside the model and the generator',
+  assumptions = ['labels are matched as plain suffixes of the dot-joined qualified id (labels with . ( ) [ ] + and whole-path labels are generated); '
+                 'duplicate qualified ids (5 % of the trees) are an open finding: the model follows the documented semantics, T2 skips the constraint '
+                 'values of such trees and the oracle keys the failure label-rows-duplicate-id',
                  'oracle compares membership verdicts (tolerance 1e-9 on exact dyadic inputs), not the shape of the constraint list']
 
+  dup_rate = float(os.environ.get('VERIF_C04_DUP', '0.05'))
+
   def __init__(self):
-    self.hist = {'sb_none': 0, 'sb_eq_slots': 0, 'sb_ineq_slots': 0, 'sub': 0, 'sub_ineq': 0, 'rem': 0, 'labels>=2': 0, 'mf': 0, 'ratio': 0,
+    self.hist = {'duplicate_id_trees': 0, 'labels_with_dot': 0, 'labels_with_regex_chars': 0, 'labels_whole_path': 0, 'label_suffix_of_label': 0,
+                 'separator_siblings': 0, 'sb_none': 0, 'sb_eq_slots': 0, 'sb_ineq_slots': 0, 'sub': 0, 'sub_ineq': 0, 'rem': 0, 'labels>=2': 0, 'mf': 0, 'ratio': 0,
                  'mf_with_constraints': 0, 'probes_spec_true': 0, 'probes_spec_false': 0, 'n': {}, 'depth': {}}
 
   # ------------------------------------------------------------ cases
   def cases(self, rng, tier, count):
     out = []
     for _ in range(count):
-      t, n = G.gen_set_tree(rng, tier)
+      dup = rng.random() < self.dup_rate
+      t, n = G.gen_set_tree(rng, tier, dup=dup)
       S = G.craft(rng, t, n)
-      out.append({'tree': t, 'n': n, 'probes': G.probes(rng, t, n, S, 7 if tier == 'quick' else 8), '_flat': rng.random() < 0.5})
+      out.append({'tree': t, 'n': n, 'probes': G.probes(rng, t, n, S, 7 if tier == 'quick' else 8), '_flat': rng.random() < 0.5,
+                  'dup': G.has_duplicate_ids(t)})
     return out
 
   def _count(self, case):
     t, n = case['tree'], case['n']
     h = self.hist
     h['n'][n] = h['n'].get(n, 0) + 1
+    h['duplicate_id_trees'] += bool(case.get('dup'))
     dp = gen.tree_depth(t); h['depth'][dp] = h['depth'].get(dp, 0) + 1
     for _, s in G.sets_of(t):
       if s['k'] == 'mf':
@@ -100,6 +121,12 @@ class C04(Prop):
           h['sb_eq_slots' if lo == hi else 'sb_ineq_slots'] += 1
       if s.get('sub'):
         h['sub'] += 1
+        ls = s.get('labels', []); ids = G.fqids(s)
+        h['labels_with_dot'] += any('.' in l for l in ls)
+        h['labels_with_regex_chars'] += any(re.search(r'[()\[\]+.]', l) for l in ls)
+        h['labels_whole_path'] += any(l in ids for l in ls)
+        h['label_suffix_of_label'] += any(a != b and b.endswith(a) for a in ls for b in ls)
+        h['separator_siblings'] += any(q.replace('_', '.').replace('-', '.') in ids and q not in (q.replace('_', '.').replace('-', '.'),) for q in ids)
         h['sub_ineq'] += 1 if s.get('ctype') == 'ineq' else 0
         h['rem'] += 1 if s.get('rem') else 0
         h['labels>=2'] += 1 if len(s.get('labels', [])) >= 2 else 0
@@ -110,6 +137,10 @@ class C04(Prop):
     self._count(case)
     obj = build.build_tree(t)
     ops = [Op({'op': 'tree.rows', 'tree': t, 'n': n}, lambda: obj.shape[0], TOL, 'rows')]
+    if dup_affected(t):
+      # known finding (duplicate qualified ids collapse in _labelled_sets): the model follows the documented
+      # semantics, so the constraint values are left to the oracle, which keys the failure as the known finding
+      return ops
     for P in case['probes']:
       S = mat(P)
       if case.get('_flat'):
@@ -135,11 +166,27 @@ class C04(Prop):
         ids = [k for k, _ in obj.leaf_devices()]
       except Exception as e:
         fails.append({'key': {'cls': set_class(s), 'kind': 'raised', 'exc': type(e).__name__},
-                      'detail': '%s %s cannot be built / lists no constraints: %s: %s' % (set_class(s), s['id'], type(e).__name__, str(e)[:160])})
+                      'detail': '%s %s (labels %s over rows %s) cannot be built / lists no constraints: %s: %s' % (
+                        set_class(s), s['id'], s.get('labels'), G.fqids(sk), type(e).__name__, str(e)[:160])})
         continue
       if ids != G.fqids(sk):
         fails.append({'key': {'cls': set_class(s), 'kind': 'leaf-ids'}, 'detail': 'leaf_devices() ids %s, documented %s' % (ids, G.fqids(sk))})
         continue
+      if s['k'] == 'node' and s.get('sub') and hasattr(obj, 'labelled_sets'):
+        want_l, want_r = documented_row_sets(sk)
+        got_l = [sorted(int(k) for k in x) for x in obj.labelled_sets]
+        got_r = sorted(int(k) for k in obj.unlabelled_set)
+        if got_l != want_l or (s.get('rem') and got_r != want_r):
+          dupes = G.has_duplicate_ids(sk)
+          fails.append({'key': {'cls': set_class(s), 'kind': 'label-rows-duplicate-id' if dupes else 'label-rows'},
+                        'detail': ('SubBalancedDeviceSet "%s" over rows %s with labels %s: labelled_sets = %s, unlabelled_set = %s; the rows whose '
+                                   'qualified id ends with each label are %s, the rest %s%s') % (
+                                     s['id'], ids, s.get('labels'), got_l, got_r, want_l, want_r,
+                                     ' (two rows share a qualified id: OrderedDict(leaf_devices()) collapses them)' if dupes else '')})
+          if not dupes:
+            return fails
+      if dup_affected(sk):
+        continue              # known finding (or a set above it): the verdict comparison would only repeat it
       for P in case['probes']:
         rows = fmat(P)[off:off + R]
         cl = G.clauses(sk, rows, n)
@@ -163,6 +210,8 @@ class C04(Prop):
           break
       if fails:
         return fails
+    if dup_affected(t):
+      return fails
     # (B) the real tree: all constraints hold <=> every atomic leaf's own exported constraints hold on its row
     #     AND every set's documented limits hold (children and sets simultaneously, every depth)
     try:
@@ -202,7 +251,7 @@ class C04(Prop):
 
   def extra_evidence(self):
     return {'input_distribution': self.hist,
-            'outside_model': 'labels with regex metacharacters; duplicate qualified ids (OrderedDict collapse in _labelled_sets)'}
+            'outside_model': 'duplicate qualified ids (OrderedDict collapse in _labelled_sets): open finding, oracle only'}
 
 
 PROP = C04()
